@@ -79,7 +79,7 @@ def gen(draw):
     for _ in range(n):
         if draw(st.integers(0, 2)) == 0:
             steps.append(['warm', draw(st.sampled_from(NAMES)), draw(st.sampled_from(OPS))])
-        steps.append(['reg', draw(st.sampled_from(related)), draw(st.sampled_from(['all', 'all', 'get'])),
+        steps.append(['reg', draw(st.sampled_from(related)), draw(st.sampled_from(['all', 'all', 'get', 'all', 'get', 'off-get', 'off-iterate'])),
                       draw(st.sampled_from([False, False, True]))])
     return {'registry': draw(st.sampled_from(['glommer', 'glommer', 'bare', 'global'])), 'steps': steps}
 
@@ -99,7 +99,16 @@ class Model(object):
         cls = self.fam[name]
         self.serial += 1
         for op in OPS:
-            if kind == 'all' or op == 'get':
+            if kind.startswith('off-'):
+                # register(cls, <op>=False): "this type does not support <op>" is the behaviour registered for it
+                if op == kind[4:]:
+                    tag = ('off', self.serial, name, op)
+                elif op == 'keys':
+                    continue
+                else:
+                    prev = self.table[op].get(cls)
+                    tag = prev[0] if prev is not None else 'auto'
+            elif kind == 'all' or op == 'get':
                 tag = ('user', self.serial, name, op)
             elif op == 'keys':
                 continue             # 'keys' has no autodiscovery: a get-only registration leaves it alone
@@ -163,7 +172,10 @@ class World(object):
             if op == 'assign':
                 return lambda obj, key, val: self.log.append(('H', tag))
             return lambda obj, key: self.log.append(('H', tag))
-        kw = dict((op, mk(op)) for op in (OPS if kind == 'all' else ['get']))
+        if kind.startswith('off-'):
+            kw = {kind[4:]: False}
+        else:
+            kw = dict((op, mk(op)) for op in (OPS if kind == 'all' else ['get']))
         if self.g is None:
             glom.register(cls, exact=exact, **kw)
         else:
@@ -252,7 +264,12 @@ def run_history(recipe):
                 if 'auto' in adm:
                     stats['auto-skipped'] += 1
                     continue
+                if op == 'keys' and any(a == 'auto' or (isinstance(a, tuple) and a[0] == 'off') for a in model.admissible(obj, 'get')):
+                    stats['auto-skipped'] += 1      # '*' fetches the children through get(): keys() is only observable through a tagged get handler
+                    continue
                 ok = got in adm
+                if not ok and got == 'unregistered' and any(isinstance(a, tuple) and a[0] == 'off' for a in adm):
+                    ok = True      # the nearest registration says "unsupported"
                 if not ok and adm == {'default'} and got == 'unregistered':
                     ok = True      # no registered type covers the object (bare registry / non-iterable object)
                 if not ok and got == 'unregistered' and op == 'keys':
